@@ -631,9 +631,9 @@ func (x Expr) set(data, value any, fun string, one bool) error {
 			if (di & descentFlag) == 0 {
 				switch tv := prev.(type) {
 				case map[string]any:
-					// Put prev back and slide fi.
-					stack[len(stack)-1] = prev
-					stack = append(stack, di|descentFlag)
+					// Put prev back under a frame of its own; the frame it came with
+					// may still serve siblings below it.
+					stack = append(stack, prev, di|descentFlag)
 					for _, v = range tv {
 						switch v.(type) {
 						case nil, gen.Bool, gen.Int, gen.Float, gen.String,
@@ -653,9 +653,9 @@ func (x Expr) set(data, value any, fun string, one bool) error {
 						}
 					}
 				case []any:
-					// Put prev back and slide fi.
-					stack[len(stack)-1] = prev
-					stack = append(stack, di|descentFlag)
+					// Put prev back under a frame of its own; the frame it came with
+					// may still serve siblings below it.
+					stack = append(stack, prev, di|descentFlag)
 					for i := len(tv) - 1; 0 <= i; i-- {
 						v = tv[i]
 						switch v.(type) {
@@ -676,9 +676,9 @@ func (x Expr) set(data, value any, fun string, one bool) error {
 						}
 					}
 				case Keyed:
-					// Put prev back and slide fi.
-					stack[len(stack)-1] = prev
-					stack = append(stack, di|descentFlag)
+					// Put prev back under a frame of its own; the frame it came with
+					// may still serve siblings below it.
+					stack = append(stack, prev, di|descentFlag)
 					for _, k := range tv.Keys() {
 						v, _ = tv.ValueForKey(k)
 						switch v.(type) {
@@ -699,9 +699,9 @@ func (x Expr) set(data, value any, fun string, one bool) error {
 						}
 					}
 				case Indexed:
-					// Put prev back and slide fi.
-					stack[len(stack)-1] = prev
-					stack = append(stack, di|descentFlag)
+					// Put prev back under a frame of its own; the frame it came with
+					// may still serve siblings below it.
+					stack = append(stack, prev, di|descentFlag)
 					for i := tv.Size() - 1; 0 <= i; i-- {
 						v = tv.ValueAtIndex(i)
 						switch v.(type) {
@@ -722,9 +722,9 @@ func (x Expr) set(data, value any, fun string, one bool) error {
 						}
 					}
 				case gen.Object:
-					// Put prev back and slide fi.
-					stack[len(stack)-1] = prev
-					stack = append(stack, di|descentFlag)
+					// Put prev back under a frame of its own; the frame it came with
+					// may still serve siblings below it.
+					stack = append(stack, prev, di|descentFlag)
 					for _, v = range tv {
 						switch v.(type) {
 						case map[string]any, []any, gen.Object, gen.Array, Keyed, Indexed:
@@ -733,9 +733,9 @@ func (x Expr) set(data, value any, fun string, one bool) error {
 						}
 					}
 				case gen.Array:
-					// Put prev back and slide fi.
-					stack[len(stack)-1] = prev
-					stack = append(stack, di|descentFlag)
+					// Put prev back under a frame of its own; the frame it came with
+					// may still serve siblings below it.
+					stack = append(stack, prev, di|descentFlag)
 					for i := len(tv) - 1; 0 <= i; i-- {
 						v = tv[i]
 						switch v.(type) {
